@@ -94,6 +94,30 @@ def cmp_set(op, c):
     return IntervalSet()
 
 
+def _unref(t):
+    while isinstance(t, tuple) and t and (t[0] in ('ref', 'deref') or (t[0] == 'loc' and len(t) > 2)):
+        t = t[2] if t[0] == 'loc' else t[1]
+    return t
+
+
+def _range_contains(t):
+    """RangeInclusive::contains(&(lo..=hi), &x) / Range::contains(&(lo..hi), &x) with constant bounds -> (lo, hi, x)"""
+    name = t[1]
+    if not name.endswith('::contains') or 'Range' not in name or len(t[2]) != 2:
+        return None
+    r = _unref(t[2][0])
+    x = _unref(t[2][1])
+    if r[0] == 'call' and r[1].endswith('RangeInclusive::<Idx>::new') or (r[0] == 'call' and 'RangeInclusive' in r[1] and r[1].endswith('::new')):
+        a, b = r[2]
+        if a[0] == 'const' and b[0] == 'const' and isinstance(a[1], int) and isinstance(b[1], int):
+            return a[1], b[1], x
+    if r[0] == 'agg' and isinstance(r[1], tuple) and r[1][0] == 'adt' and r[1][1].endswith('ops::Range') and len(r[2]) == 2:
+        a, b = r[2]
+        if a[0] == 'const' and b[0] == 'const' and isinstance(a[1], int) and isinstance(b[1], int):
+            return a[1], b[1] - 1, x
+    return None
+
+
 NEG = {'Eq': 'Ne', 'Ne': 'Eq', 'Lt': 'Ge', 'Ge': 'Lt', 'Gt': 'Le', 'Le': 'Gt'}
 FLIP = {'Eq': 'Eq', 'Ne': 'Ne', 'Lt': 'Gt', 'Gt': 'Lt', 'Le': 'Ge', 'Ge': 'Le'}
 
@@ -118,6 +142,10 @@ class PathFacts:
             self.add_cmp(o, t[2], t[3])
         elif t[0] == 'un' and t[1] == 'Not' and op == 'eq' and isinstance(val, bool):
             self.add((t[2], 'eq', not val, c[3] if len(c) > 3 else None))
+        elif t[0] == 'call' and op == 'eq' and val is True and _range_contains(t) is not None:
+            lo, hi, x = _range_contains(t)
+            self.add_cmp('Ge', x, ('const', lo, 'i128'))
+            self.add_cmp('Le', x, ('const', hi, 'i128'))
         elif op == 'eq' and isinstance(val, int) and not isinstance(val, bool):
             self.add_cmp('Eq', t, ('const', val, 'i128'))
         elif op == 'ne' and isinstance(val, tuple):
